@@ -12,7 +12,7 @@ import (
 )
 
 // Positions lists every expression position.
-var Positions = []string{"where", "project", "extend", "extend-unnamed", "summarize-agg", "summarize-key", "sort", "top", "take", "let", "join-on"}
+var Positions = []string{"where", "project", "extend", "extend-unnamed", "summarize-agg", "summarize-key", "sort", "top", "take", "let", "join-on", "join-on-nested"}
 
 // build wraps the surface expression into a program for the position.
 func Build(pos string, sx *E) *Program {
@@ -47,6 +47,9 @@ func Build(pos string, sx *E) *Program {
 		return &Program{Stmts: []*Stmt{{LetName: id("v"), LetX: sx}, {Pipe: &Pipe{Table: Ident{Name: "T"}, Ops: []*Op{{K: "extend", Cols: []Col{{Name: id("r"), X: Name("v")}}}}}}}}
 	case "join-on":
 		return Query("T", &Op{K: "join", Kind: "inner", Right: &Pipe{Table: Ident{Name: "U"}}, Conds: []*E{sx}})
+	case "join-on-nested":
+		inner := &Op{K: "join", Kind: "inner", Right: &Pipe{Table: Ident{Name: "V"}}, Conds: []*E{sx}}
+		return Query("T", &Op{K: "where", X: Name("ba")}, &Op{K: "join", Kind: "leftouter", Right: &Pipe{Table: Ident{Name: "U"}, Ops: []*Op{{K: "where", X: Name("bb")}, inner}}, Conds: []*E{Name("k")}})
 	}
 	panic("c01: position " + pos)
 }
@@ -54,6 +57,15 @@ func Build(pos string, sx *E) *Program {
 // locate finds the SQL expression at the position.
 func Locate(pos string, st *sqlmini.Stmt) (*sqlmini.X, string) {
 	var sel *sqlmini.Select
+	if pos == "join-on-nested" {
+		// the inner join is the first JOIN of the statement
+		for _, c := range st.CTEs {
+			if c.Sel.From.Join != nil {
+				return c.Sel.From.Join.On, ""
+			}
+		}
+		return nil, "no JOIN in the statement"
+	}
 	if pos == "join-on" {
 		for _, c := range st.CTEs {
 			if c.Sel.From.Join != nil {
